@@ -171,15 +171,77 @@ func c13Scenarios(thorough bool) []*explore.Scenario {
 	if thorough {
 		n = 64
 	}
-	return []*explore.Scenario{c13Scenario(gridClients(n, thorough))}
+	return []*explore.Scenario{c13Scenario(append(gridClients(n, thorough), c13TrimmedVersionClients()...))}
 }
 
 func init() {
 	register(&Prop{ID: "C13", Level: "exploration", Variant: "A", Scenarios: c13Scenarios,
 		Run: func(c *explore.Check, thorough bool) {
-			c.Rule = "every discovered ID, randomized seeds, custom specs (+ fingerprinted copies in thorough) x server MaxVersion {1.3,1.2,1.1,1.0} x {honours supported_versions, negotiates from legacy_version only (verif hook)} x {fresh connection, resumption of a session cached by an honest first connection} x downgrade canary {as the server sets it, stripped, each of the two RFC 8446 sentinels DOWNGRD\\x01 / DOWNGRD\\x00 forced}: a completed handshake must be at a version in the advertised set parsed from the wire (supported_versions if present, else [spec minimum .. legacy_version]); with TLS 1.3 advertised a <=1.2 ServerHello carrying either sentinel must be refused (RFC 8446 4.1.3: a TLS 1.3 client checks both values). distinct = (client, server behaviour)"
+			c.Rule = "every discovered ID, randomized seeds, custom specs incl. parrot specs whose supported_versions list is cut to its first k entries while TLSVersMin..TLSVersMax stays wider (+ fingerprinted copies in thorough) x server MaxVersion {1.3,1.2,1.1,1.0} x {honours supported_versions, negotiates from legacy_version only (verif hook)} x {fresh connection, resumption of a session cached by an honest first connection} x downgrade canary {as the server sets it, stripped, each of the two RFC 8446 sentinels DOWNGRD\\x01 / DOWNGRD\\x00 forced}: a completed handshake must be at a version in the advertised set parsed from the wire (supported_versions if present, else [spec minimum .. legacy_version]); with TLS 1.3 advertised a <=1.2 ServerHello carrying either sentinel must be refused (RFC 8446 4.1.3: a TLS 1.3 client checks both values). distinct = (client, server behaviour)"
 			c.Assumptions = []string{"the server is the utls Server with hooks H3/H4; canary edits go through the ServerHello random hook, so the server stays self-consistent"}
 			runAll(c, c13Scenarios(thorough), 0)
 			c.Gate(c.Total.Counters["completed"] > 200, "non-vacuity: %d completed handshakes", c.Total.Counters["completed"])
 		}})
+}
+
+// c13TrimmedVersionClients — custom specs whose TLSVersMin/TLSVersMax span more than their
+// supported_versions extension lists: the spec of a parrot with the list cut down to its first k
+// entries (GREASE aside). Only what is listed on the wire may be accepted.
+func c13TrimmedVersionClients() []gridClient {
+	var out []gridClient
+	for _, n := range ParrotIDs() {
+		switch n.Name {
+		case "HelloFirefox_120", "HelloChrome_120", "HelloIOS_14", "HelloFirefox_102":
+		default:
+			continue
+		}
+		sp0, err := tls.UTLSIdToSpec(n.ID)
+		if err != nil {
+			continue
+		}
+		nv := 0
+		for _, e := range sp0.Extensions {
+			if sv, ok := e.(*tls.SupportedVersionsExtension); ok {
+				for _, v := range sv.Versions {
+					if v&0x0f0f != 0x0a0a {
+						nv++
+					}
+				}
+			}
+		}
+		for k := 1; k < nv; k++ {
+			n, k := n, k
+			out = append(out, gridClient{Name: fmt.Sprintf("custom:%s-versions-cut-to-%d", n.Name, k), ID: tls.HelloCustom, Spec: func() (*tls.ClientHelloSpec, error) {
+				sp, err := tls.UTLSIdToSpec(n.ID)
+				if err != nil {
+					return nil, err
+				}
+				for _, e := range sp.Extensions {
+					if sv, ok := e.(*tls.SupportedVersionsExtension); ok {
+						var kept []uint16
+						real := 0
+						for _, v := range sv.Versions {
+							if v&0x0f0f == 0x0a0a {
+								kept = append(kept, v)
+								continue
+							}
+							if real < k {
+								kept = append(kept, v)
+								real++
+							}
+						}
+						sv.Versions = kept
+					}
+				}
+				if sp.TLSVersMin == 0 {
+					sp.TLSVersMin = tls.VersionTLS10
+				}
+				if sp.TLSVersMax == 0 {
+					sp.TLSVersMax = tls.VersionTLS13
+				}
+				return &sp, nil
+			}})
+		}
+	}
+	return out
 }
